@@ -16,7 +16,6 @@ import (
 	pb "github.com/marekgalovic/anndb/protobuf"
 	"github.com/marekgalovic/anndb/utils"
 	uuid "github.com/satori/go.uuid"
-	"verif/harness/hx"
 	"verif/harness/mon"
 	"verif/harness/sim"
 )
@@ -136,7 +135,7 @@ var apiPaths = []string{"insert", "update", "remove", "batch-insert", "batch-upd
 func system(rec *mon.Recorder, c int) {
 	rng := rec.Rand("c10-sys", c)
 	nodes := 3
-	parts := []int{1, 2, 5, 8}[c%4]
+	parts := []int{5, 3, 8, 7, 1, 6, 2, 11}[c%8]
 	repl := 1 + rng.Intn(2)
 	desc := fmt.Sprintf("case=%d nodes=%d partitions=%d replication=%d", c, nodes, parts, repl)
 	rec.Current(desc)
@@ -232,7 +231,20 @@ func system(rec *mon.Recorder, c int) {
 						return
 					}
 					serial++
-					id := hx.Id(c*10000 + serial)
+					// full-entropy ids: both 64-bit halves random (half of them have
+					// halves whose sum wraps around), plus the structured corner ids
+					var id uuid.UUID
+					rng.Read(id[:])
+					switch serial % 6 {
+					case 0:
+						for i := range id {
+							id[i] = 0xff
+						}
+						id[0] = byte(serial)
+					case 1:
+						id[15] |= 0x80
+						id[7] |= 0x80
+					}
 					if err := call(entry, ins, id, float32(serial)); err != nil {
 						fail("write-failed:"+ins, fmt.Sprintf("%s through node %d: %v", ins, entry.Id, err))
 						return
